@@ -14,13 +14,17 @@ float⇄double conversion) is arbitrary.  Data are bit patterns.
 namespace PsV
 open PsV.Fits PsV.Fits.Codec
 
-/- `rowMajor` (row-major strides, `strides[i] = Π_{j>i} naxes[j]`) and `pad8` (trailing-blank padding to 8 characters)
-   are defined at the end of `PsV/Model/Fits.lean` (namespace `PsV.Fits`):
+/- `rowMajor` (row-major strides, `strides[i] = Π_{j>i} naxes[j]`), `storedLen` (characters a value occupies inside a
+   card: apostrophes are stored doubled), `padFits` (the trailing blanks FITS adds: the stored form is padded to 8
+   characters) and `pad8` (`padFits` for values without apostrophes) are defined at the end of `PsV/Model/Fits.lean`
+   (namespace `PsV.Fits`):
 
      def rowMajor : List Nat → List Nat
        | [] => []
        | _ :: as => prod as :: rowMajor as
      def pad8 (v : Str) : Str := v ++ List.replicate (8 - v.length) ' '
+     def storedLen (v : Str) : Nat := v.length + v.count '\''
+     def padFits (v : Str) : Str := v ++ List.replicate (8 - storedLen v) ' '
 -/
 
 /-- What `write_fits_core` needs of a table to be able to store it (weaker than full well-formedness: no
@@ -37,13 +41,13 @@ structure Storable (t : Table) : Prop where
   extents_len : ∀ e, t.extents = some e → e.length = 2 * t.ndim
   periods_len : ∀ p, t.periods = some p → p.length = t.ndim
   aux_ok : ∀ kv ∈ t.aux, reserved kv.1 = false ∧ kv.1 ≠ "EXTNAME".toList ∧ kv.1 ≠ "HDUNAME".toList
-            ∧ '\'' ∉ kv.2 ∧ kv.2.length ≤ 68
+            ∧ storedLen kv.2 ≤ 68     -- the bound `write_key` enforces: length + number of apostrophes ≤ 68
 
 /-- The table `read_fits_core` must return for what `write_fits_core` wrote. -/
 def Reread (E : Ext) (t t' : Table) : Prop :=
   t'.order = t.order ∧ t'.knots = t.knots ∧ t'.naxes = t.naxes ∧ t'.strides = t.strides ∧ t'.coef = t.coef ∧
   t'.extents = some (t.extents.getD (defaultExtents t.order t.knots)) ∧
-  t'.aux = t.aux.map (fun kv => (kv.1, pad8 kv.2)) ∧
+  t'.aux = t.aux.map (fun kv => (kv.1, padFits kv.2)) ∧
   (∀ p, t.periods = some p → (∀ x ∈ p, E.parseD (E.fmtD x) = some x) → t'.periods = some p) ∧
   (t.periods = none → t'.periods = some (List.replicate t.ndim 0))
 
@@ -61,13 +65,39 @@ theorem C06_roundtrip_core (E : Ext) (t : Table) (h : Storable t) :
     unfold rdPeriods
     rw [hp]
 
-/-- the hypothesis of `C06_roundtrip_core` is satisfiable: a 2 × 3 table with extents, periods and two aux keys -/
+/-- the hypothesis of `C06_roundtrip_core` is satisfiable: a 2 × 3 table with extents, periods and three aux keys, one of
+    them `it's ''` (a single apostrophe and a run of two) -/
 example : Storable exTable := by
   constructor <;> decide
 
+/-- Auxiliary values survive with apostrophes anywhere (single, leading, trailing, adjacent runs, nothing but
+    apostrophes, stored form filling the card): the value read is the value written followed by blanks only — at most
+    up to 8 characters in all, none once the value has 8 — and for a value without apostrophes exactly `pad8`. -/
+theorem aux_values_gain_blanks_only (E : Ext) (t t' : Table) (h : Reread E t t') :
+    t'.aux.map (·.1) = t.aux.map (·.1) ∧
+    ∀ i (hi : i < t.aux.length), ∃ k, (t'.aux.getD i default).2 = t.aux[i].2 ++ List.replicate k ' '
+      ∧ k ≤ 8 - t.aux[i].2.length ∧ ('\'' ∉ t.aux[i].2 → (t'.aux.getD i default).2 = pad8 t.aux[i].2) := by
+  obtain ⟨_, _, _, _, _, _, ha, _⟩ := h
+  refine ⟨by rw [ha, List.map_map]; rfl, ?_⟩
+  intro i hi
+  have hg : t'.aux.getD i default = (t.aux[i].1, padFits t.aux[i].2) := by
+    rw [ha, List.getD_eq_getElem?_getD, List.getElem?_map, List.getElem?_eq_getElem hi]; rfl
+  refine ⟨8 - storedLen t.aux[i].2, by rw [hg]; rfl, ?_, ?_⟩
+  · have := length_le_storedLen t.aux[i].2; omega
+  · intro hq; rw [hg]; exact padFits_plain _ hq
+
+/-- not vacuous: the table read back for `exTable`; `it's ''` (stored as 10 characters) gains no blank, the empty value
+    gains 8, and the reader's copy loop really halves the run of four stored apostrophes -/
+example (E : Ext) : ∃ t', readCore E (writeCore E exTable) = .ok t' ∧ Reread E exTable t' ∧
+    t'.aux.map (·.2) = ["J. Doe  ".toList, "        ".toList, "it's ''".toList] ∧
+    s2c "it's ''".toList = "'it''s '''''".toList ∧ stripQuotes "'it''s '''''".toList = "it's ''".toList := by
+  obtain ⟨t', h1, h2⟩ := C06_roundtrip_core E exTable (by constructor <;> decide)
+  refine ⟨t', h1, h2, ?_, by decide, by decide⟩
+  rw [h2.2.2.2.2.2.2.1]; decide
+
 /-- C06: for every well-formed table (any number of dimensions, axis lengths, orders, knots, coefficient bit patterns,
-    extents or none, periods or none, quote-free aux keys) write → read succeeds and reproduces every field bit for
-    bit; aux values gain trailing blanks only.  `DimsWF t`: per dimension `nknots ≥ 2·order+2`,
+    extents or none, periods or none, aux values with or without apostrophes as `write_key` accepts them) write → read
+    succeeds and reproduces every field bit for bit; aux values gain trailing blanks only (`aux_values_gain_blanks_only`).  `DimsWF t`: per dimension `nknots ≥ 2·order+2`,
     `naxes = nknots-order-1`, knots finite and non-decreasing — what the repaired reader insists on. -/
 theorem C06_roundtrip (E : Ext) (t : Table) (h : Storable t) (hw : DimsWF t) :
     ∃ t', readFixed E (writeCore E t) = .ok t' ∧ Reread E t t' := by
@@ -178,8 +208,8 @@ example : exampleFits ≠ [] ∧ ∀ hdu ∈ exampleFits, HduOK hdu := ⟨by dec
 
 /-- What `write_fits_core` writes is inside the codec's domain: its 80-column / 2880-byte form decodes to the very
     store (`Encodable`: standard 8-character keywords — at most 999 dimensions, at most 100 when PERIODn keys are
-    written —, sizes below 10^20, Latin-1 quote-free aux values of at most 68 characters, TDOUBLE text that is a
-    blank-free token). -/
+    written —, sizes below 10^20, Latin-1 aux values whose stored form — apostrophes doubled — has at most 68
+    characters, TDOUBLE text that is a blank-free token). -/
 theorem written_bytes_decode (E : Ext) (t : Table) (h : Encodable E t) :
     decodeFits (encodeFits (writeCore E t)) = some (writeCore E t) :=
   writeCore_decode_encode E t h
